@@ -176,20 +176,32 @@ func (c *RepoCache) lock(events chan BuildEvent) error {
 		return err
 	}
 
-	f, err := c.repo.LocalStorage().Create(lockfile)
+	// The pid is written to a temporary file which is then renamed: a process
+	// killed at any point never leaves a lock file without a pid in it.
+	pid := fmt.Sprintf("%d", os.Getpid())
+	tmpfile := lockfile + "." + pid
+
+	f, err := c.repo.LocalStorage().Create(tmpfile)
 	if err != nil {
 		return err
 	}
 
-	pid := fmt.Sprintf("%d", os.Getpid())
 	_, err = f.Write([]byte(pid))
 	if err != nil {
 		_ = f.Close()
+		_ = c.repo.LocalStorage().Remove(tmpfile)
 		return err
 	}
 
 	err = f.Close()
 	if err != nil {
+		_ = c.repo.LocalStorage().Remove(tmpfile)
+		return err
+	}
+
+	err = c.repo.LocalStorage().Rename(tmpfile, lockfile)
+	if err != nil {
+		_ = c.repo.LocalStorage().Remove(tmpfile)
 		return err
 	}
 
@@ -309,13 +321,17 @@ func repoIsAvailable(repo repository.RepoStorage, events chan BuildEvent) error 
 			return fmt.Errorf("the lock file should be < 10 bytes")
 		}
 
-		pid, err := strconv.Atoi(string(buf))
-		if err != nil {
-			return err
-		}
+		// An empty lock file is what a process killed between the creation of
+		// the file and the write of its pid used to leave: nobody holds it.
+		if len(buf) > 0 {
+			pid, err := strconv.Atoi(string(buf))
+			if err != nil {
+				return err
+			}
 
-		if process.IsRunning(pid) {
-			return fmt.Errorf("the repository you want to access is already locked by the process pid %d", pid)
+			if process.IsRunning(pid) {
+				return fmt.Errorf("the repository you want to access is already locked by the process pid %d", pid)
+			}
 		}
 
 		// The lock file is just laying there after a crash, clean it
